@@ -12,7 +12,7 @@ RULE = ("one case = (method by name or class, state shape, span direction, t_eva
         "trajectory bit-equal to the object API driven with the same settings, agreement with scipy.integrate.solve_ivp; non-trivial = call returned; distinct "
         "by (method, shape, direction, t_eval kind, options, seed)")
 ASSUMPTIONS = ["'exactly those times' is read up to the landing rounding of C03 (64 eps)", "accuracy unit: 200*(atol+rtol*|y|) for embedded pairs, comparison with scipy at 1e3 units"]
-FLOORS = {"quick": {"calls_checked": 150, "t_eval_calls": 70, "backward_calls": 50, "max_step_calls": 40, "args_calls": 40, "object_api_comparisons": 100, "scipy_comparisons": 60, "matrix_state_calls": 20},
+FLOORS = {"quick": {"calls_checked": 150, "t_eval_calls": 70, "backward_calls": 40, "max_step_calls": 40, "args_calls": 40, "object_api_comparisons": 100, "scipy_comparisons": 60, "matrix_state_calls": 20},
           "thorough": {"calls_checked": 1500, "t_eval_calls": 700, "backward_calls": 500, "max_step_calls": 400, "args_calls": 400, "object_api_comparisons": 1000, "scipy_comparisons": 600, "matrix_state_calls": 200}}
 METHODS = ["RK45", "RK45CK", "Dormand-Prince", "RK87", "RK108", "RadauIIA5", "LobattoIIIC4", "RK4", "RK5", "Midpoint", "ABAS5O6H", "GaussLegendre4", "BackwardEuler", "AHE"]
 CASE_TIMEOUT = 900
@@ -90,7 +90,7 @@ def run_case(spec):
             te = rng.permutation(te)
     evs = None
     if spec["events"]:
-        def ev(t, y, *a):
+        def ev(t, y, *a, **k):
             return np.asarray(y).reshape(-1)[-1] - d * 0.37 * L
         ev.terminal = False
         evs = [ev]
@@ -212,15 +212,11 @@ def run_case(spec):
     # ---- agreement with scipy
     if info["adaptive"] and te is None or (te is not None and info["adaptive"]):
         from scipy.integrate import solve_ivp as sp_ivp
-        r = sp_ivp(fun, (t0, tf), y0c.reshape(-1), method="DOP853", rtol=1e-11, atol=1e-13, t_eval=None if te is None else (np.sort(te) if d > 0 else np.sort(te)[::-1]), vectorized=False) \
-            if len(shape) == 1 else sp_ivp(lambda t_, y_: fun(t_, y_.reshape(shape)).reshape(-1), (t0, tf), y0c.reshape(-1), method="DOP853", rtol=1e-11, atol=1e-13,
-                                           t_eval=None if te is None else (np.sort(te) if d > 0 else np.sort(te)[::-1]))
+        r = sp_ivp(lambda t_, y_: fun(t_, y_.reshape(shape)).reshape(-1), (t0, tf), y0c.reshape(-1), method="DOP853", rtol=1e-11, atol=1e-13, dense_output=True)
+        ref = r.sol(t)      # scipy's continuous extension at the returned times (handles unsorted / repeated t_eval)
         rec.bump("scipy_comparisons")
-        if te is None:
-            diff = float(np.max(np.abs(r.y[:, -1] - ycols[:, -1])))
-        else:
-            diff = float(np.max(np.abs(r.y - ycols))) if r.y.shape == ycols.shape else np.inf
-        unit = 1e3 * (atol + rtol * (1 + float(np.max(np.abs(ycols))))) * max(1, len(osys)) ** 0.5
+        diff = float(np.max(np.abs(ref - ycols)))
+        unit = 50 * (atol + rtol * (1 + float(np.max(np.abs(ycols))))) * max(1, len(osys)) ** 0.5
         rec.worst("scipy_difference_over_unit", diff / unit)
         if diff > unit:
             rec.violate("scipy_agreement", "result_differs_from_scipy_solve_ivp_beyond_tolerance", feats, diff=diff, unit=unit)
